@@ -43,7 +43,7 @@ func (c14) Describe() CheckInfo {
 		},
 		RealCode:       []string{"gopatch main()/mainCmd.Run, patchRunner, patch.Parse/File.Apply, internal/engine (compiled program, dotAssoc maps), go/token.FileSet shared across files and calls"},
 		Stubs:          []string{"package os", "path/filepath walk", "io/ioutil", "choice of which caller goroutine runs next (simrt scheduler)"},
-		RequiredProbes: []string{"cli-grouped-vs-solo", "cli-permutation", "cli-unparseable-neighbour", "cli-repeat-identical", "hist-call", "hist-failing-call", "hist-result-held", "sched-run", "sched-overlap", "sched-preempt-sweep", "sched-concurrent-parse", "sched-pct", "sched-two-switch-site-uniform", "race-log-checked", "sched-same-filename", "cli-respelled-duplicate"},
+		RequiredProbes: []string{"cli-grouped-vs-solo", "cli-permutation", "cli-unparseable-neighbour", "cli-repeat-identical", "hist-call", "hist-failing-call", "hist-result-held", "sched-run", "sched-overlap", "sched-preempt-sweep", "sched-concurrent-parse", "sched-pct", "sched-two-switch-site-uniform", "race-log-checked", "sched-same-filename", "cli-respelled-duplicate", "cli-module-root-in-tree"},
 	}
 }
 
@@ -208,6 +208,31 @@ func c14GenCLI(r *world.PRNG, seed uint64, i int) *Case {
 			}
 		}
 	}
+	if r.Chance(1, 4) {
+		// a module root below the project directory: one matching file inside the
+		// module, one outside any module, both importing from the module, from a
+		// third party and from the standard library in one ungrouped block
+		c.SetNode(world.NodeSpec{Path: ProjDir + "/svc/go.mod", Kind: "file", Data: []byte("module example.com/mod\n\ngo 1.21\n")})
+		mk := func() []byte {
+			ch := all[r.Intn(len(all))]
+			o := GoFileOpts{Funcs: 1, Style: "canonical", Imports: []string{"os", "example.com/mod/pkg", "github.com/x/y", "fmt", "example.com/mod/a"}}
+			if ch.T.Decl != nil {
+				o.Decls = append(o.Decls, ch.T.Decl(r, ch.K))
+			} else {
+				o.Stmts = append(o.Stmts, ch.T.Stmt(r, ch.K))
+			}
+			if ch.T.Imports != nil {
+				o.Imports = append(o.Imports, ch.T.Imports(ch.K)...)
+			}
+			return GenValidGoFile(r, o)
+		}
+		c.AddFile("svc/in_module.go", mk(), "match", nil, "module")
+		c.AddFile("tools/outside_module.go", mk(), "match", nil, "module")
+		if r.Chance(1, 2) {
+			c.AddFile("a_first/outside_too.go", mk(), "match", nil, "module")
+		}
+		c.Extra["module"] = "1"
+	}
 	AddDecoys(c, r)
 	if r.Chance(1, 5) {
 		AddHardlinkTarget(c, r)
@@ -366,6 +391,9 @@ func c14EvalCLI(env *Env, c *Case) []Violation {
 		if f.Role == "unparseable" {
 			env.Probe("cli-unparseable-neighbour")
 		}
+	}
+	if c.Extra["module"] == "1" {
+		env.Probe("cli-module-root-in-tree")
 	}
 	var wantPrint bytes.Buffer
 	anyFail := false
